@@ -675,11 +675,14 @@ pub fn run_schedule(run: u64, steps: &[Value], erased: bool, feats: &Value) -> (
         w.tail();
     }
     let inappl = w.inapplicable;
-    // tear the world down before the next run: handles first, then runtimes
+    // the run's trace ends here; whatever is logged while the world is torn down (futures
+    // dropped with their runtimes) is an artefact of the harness, not behaviour
+    let events = crate::log::take_all();
     with_handles(|h| h.clear());
     *SAMPLERS.lock().unwrap() = None;
     drop(w);
-    (crate::log::take_all(), drifts, inappl)
+    let _ = crate::log::take_all();
+    (events, drifts, inappl)
 }
 
 fn canon(v: &Value) -> Value {
